@@ -276,3 +276,160 @@ def check_C15(tier: str, seed: int) -> int:
     return finish_model_checking(
         out, "Context.tla: exhaustive state graph to nesting depth 7; every behaviour of the stated length is replayed with "
              "real with-blocks/decorators/raising bodies; plus random programs inside scopes validated against Ref.tla")
+
+
+# ----------------------------------------------------------------------------- C08: memory guard
+MG_ALPHABET = '{"newarr", "npview", "freeze", "wrap", "op", "view", "fail", "clear", "dropt", "dropa"}'
+
+
+def _mg_cfg(path, na, nt, no, maxlen, emit, invariants):
+    with open(path, "w") as f:
+        f.write(f"SPECIFICATION Spec\nCONSTANTS\n  NA = {na}\n  NT = {nt}\n  NO = {no}\n  MaxLen = {maxlen}\n"
+                f"  EmitHist = {'TRUE' if emit else 'FALSE'}\n  Alphabet = {MG_ALPHABET}\n"
+                + "".join(f"INVARIANT {i}\n" for i in invariants) + "CHECK_DEADLOCK FALSE\n")
+
+
+# minimal witness histories of the open known findings (also TLC's counterexamples to NoKF2 / NoKF3)
+KF_WITNESS = {
+    "F-C08-2": [
+        ({"k": "newarr", "w": True}, [1], []), ({"k": "npview", "a": 1}, [2], []), ({"k": "freeze", "a": 1}, [], []),
+        ({"k": "op", "ins": [["a", 2]]}, [], [2]), ({"k": "dropt", "t": 2}, [], []),
+    ],
+    "F-C08-3": [
+        ({"k": "newarr", "w": True}, [1], []), ({"k": "npview", "a": 1}, [2], []), ({"k": "freeze", "a": 2}, [], []),
+        ({"k": "op", "ins": [["a", 1], ["a", 2]]}, [], [3]), ({"k": "dropt", "t": 3}, [], []),
+    ],
+}
+
+
+def _kf_witness_still_fails(key) -> bool:
+    """Re-executes the witness of a known finding on the current tree (True = the defect is still there)."""
+    import gc
+    from . import memguard
+    from .driver import reset_global_state
+
+    reset_global_state()
+    was = gc.isenabled()
+    gc.disable()
+    w = memguard.World()
+    try:
+        orig = {}
+        for ev, newa, newt in KF_WITNESS[key]:
+            w.run(ev, newa, newt)
+            if ev["k"] in ("newarr", "npview", "freeze"):
+                for a in w.A:
+                    orig[a] = w.A[a].flags.writeable if ev["k"] != "freeze" or a == ev["a"] else orig.get(a, True)
+        return any(w.A[a].flags.writeable != orig[a] for a in w.A)
+    finally:
+        w.A.clear()
+        w.T.clear()
+        reset_global_state()
+        if was:
+            gc.enable()
+
+
+def check_C08(tier: str, seed: int) -> int:
+    import shutil
+    import tempfile
+
+    from . import memguard
+
+    out = core.Outcome("C08", tier, seed, "model_checking")
+    quick = tier == "quick"
+    spec = os.path.join(tlc.SPEC, "MemGuard.tla")
+    scratch = tempfile.mkdtemp(prefix="verif-mg-")
+    try:
+        # (1) design: exhaustive over all histories incl. every order of drops / clears / failures
+        cfg = os.path.join(scratch, "mc.cfg")
+        na, nt, no = (3, 4, 2)
+        _mg_cfg(cfg, na, nt, no, 0, False, ["Safe", "Restored", "NoLeak", "CountersSane"])
+        info, o, violated = core.design_run(out, spec, cfg, workers=16, timeout=3000,
+                                            label=f"MemGuard exhaustive NA={na} NT={nt} NO={no}")
+        if violated:
+            out.machinery("MemGuard.tla: TLC found a design-level violation outside the listed known findings; it must be "
+                          "replayed and triaged (see DESIGN 4.3): " + o[o.find("Error:"):][:1500])
+        out.coverage["states"] = info["distinct_states"] or 0
+        out.coverage["transitions"] = info["states_generated"] or 0
+        out.coverage["exhaustive"] = True
+        if not quick:
+            cfg2 = os.path.join(scratch, "mc2.cfg")
+            _mg_cfg(cfg2, 4, 5, 2, 0, False, ["Safe", "Restored", "NoLeak", "CountersSane"])
+            try:
+                info2, o2, v2 = core.design_run(out, spec, cfg2, workers=16, timeout=1500,
+                                                label="MemGuard NA=4 NT=5 NO=2 (time-bounded)")
+                if v2:
+                    out.machinery("MemGuard.tla (larger bound): design-level violation: " + o2[o2.find("Error:"):][:1500])
+            except tlc.MachineryError:
+                out.notes.append("larger MemGuard bound did not finish within 25 min (expected: > 10^8 states); "
+                                 "no violation had been reported when it was stopped")
+        # (2) known findings: witnesses re-executed on the real code
+        for key in ("F-C08-2", "F-C08-3"):
+            still = _kf_witness_still_fails(key)
+            if still and out.open_kf(key):
+                out.kf_hit(key)
+            elif still:
+                out.violation({"kind": "memguard-witness", "finding": key, "events": [w[0] for w in KF_WITNESS[key]]},
+                              f"witness history of {key} fails although the finding is not listed as open")
+        # (3) spec -> code: every behaviour of the stated length replayed with real arrays / tensors / dels
+        cfg3 = os.path.join(scratch, "emit.cfg")
+        maxlen = 5 if quick else 6
+        _mg_cfg(cfg3, 3, 4, 2, maxlen, True, ["Emit"])
+        rc, o3, wall = tlc.run_tlc(spec, cfg3, workers=1, timeout=3000, heap="8g")
+        behs, bad = replay.parse_behaviours(o3)
+        if rc != 0 or bad or not behs:
+            out.machinery(f"MemGuard emission failed rc={rc} bad={bad} n={len(behs)}: {o3[-600:]}")
+        # (4) long random behaviours (simulation) replayed as well
+        cfg4 = os.path.join(scratch, "sim.cfg")
+        _mg_cfg(cfg4, 4, 6, 3, 14, True, ["Emit"])
+        rc4, o4, _ = tlc.run_tlc(spec, cfg4, workers=1, timeout=1200,
+                                 extra=("-simulate", f"num={400 if quick else 6000}", "-depth", "15", "-seed", str(seed + 1)))
+        behs4, bad4 = replay.parse_behaviours(o4)
+        if bad4:
+            out.machinery(f"{bad4} unparsable simulated behaviours")
+        drift = 0
+        nbad = 0
+        allb = behs + behs4
+        out.judged += len(allb)
+        for b in allb:
+            r = memguard.compare(b)
+            if r is None:
+                continue
+            i, field, pred, obs, drift_only = r
+            if drift_only:
+                drift += 1
+                continue
+            nbad += 1
+            out.violation({"kind": "memguard-replay", "events": [e["ev"] for e in b], "failing_event": i, "field": field,
+                           "predicted": pred, "observed": obs},
+                          f"memory guard: after event {i} the writeable flags differ from the model "
+                          f"({field}: predicted {pred}, observed {obs})")
+        st3 = tlc.parse_stats(o3)
+        if st3:
+            out.coverage["states"] += st3["distinct"]
+            out.coverage["transitions"] += st3["generated"]
+        out.coverage["behaviours_replayed"] = len(allb)
+        out.coverage["behaviours_agreeing"] = len(allb) - nbad - drift
+        out.coverage["internal_table_drift"] = drift
+        out.coverage["traces_validated_against_impl"] = len(allb)
+        out.coverage["replay_stages"] = [
+            {"spec": "MemGuard.tla", "mode": "exhaustive", "max_len": maxlen, "behaviours": len(behs)},
+            {"spec": "MemGuard.tla", "mode": "simulate", "max_len": 14, "behaviours": len(behs4)}]
+        if behs:
+            out.add_sample({"kind": "replayed_memguard_behaviour", "events": [e["ev"] for e in behs[len(behs) // 3]]})
+        if behs4:
+            out.add_sample({"kind": "replayed_memguard_simulation", "events": [e["ev"] for e in behs4[0]]})
+        if drift:
+            out.notes.append(f"DRIFT: {drift} behaviours agree on every flag but differ in the size of an internal lock table")
+    except tlc.MachineryError as e:
+        out.machinery(str(e)[:3000])
+    finally:
+        shutil.rmtree(scratch, ignore_errors=True)
+    out.assumptions += ["CPython reference counting (gc disabled during replay); arrays reachable only through references the "
+                        "harness holds; in-place tensor updates and out= targets are not part of MemGuard.tla's alphabet yet"]
+    cov = out.coverage
+    cov["rule"] = ("MemGuard.tla exhaustive state graph (all orders of drops, clears, failures) at the stated bound; every "
+                   "behaviour of the stated length plus seeded simulations replayed on real arrays; distinct = distinct TLC states")
+    cov["evaluations"] = cov.get("behaviours_replayed", 0)
+    cov["distinct_nontrivial"] = cov.get("behaviours_replayed", 0)
+    cov["trusted_base"] = ["TLC 1.8 / SANY", "CommunityModules Json", "harness/memguard.py (statement spelling, flag observation)"]
+    return out.finish()
